@@ -6,6 +6,9 @@ import BSVerif.Driver.Num
 import BSVerif.Driver.Csv
 import BSVerif.Driver.Fault
 import BSVerif.Driver.MsgPack
+import BSVerif.Driver.Load
+import BSVerif.Driver.Cont
+import BSVerif.Driver.Valid
 
 namespace BSVerif.Driver
 
@@ -21,6 +24,9 @@ def dispatch (toks : List String) (impl : Option String) : Option (String × Str
     else if t.startsWith "num." then Num.handle toks impl
     else if t.startsWith "csv." then Csv.handle toks impl
     else if t.startsWith "fault." then Fault.handle toks impl
+    else if t == "load.any" || t == "rt.any" then Load.handle toks impl
+    else if t.startsWith "cont." then Cont.handle toks impl
+    else if t.startsWith "val." then Valid.handle toks impl
     else none
 
 end BSVerif.Driver
